@@ -37,6 +37,7 @@ MIN_REACH = {
     "failed_attempts_tree_compared": {"quick": 300, "thorough": 1200},
     "retries_exact": {"quick": 300, "thorough": 1200},
     "sync_before_delete_observed": {"quick": 12, "thorough": 120},
+    "reaps_by_an_object_older_than_the_last_sow": {"quick": 30, "thorough": 100},
 }
 TIME_BUDGET = {"quick": 400, "thorough": 3400}
 
@@ -63,6 +64,109 @@ def cases(ctx):
                     yield {"kind": kind, "fail": fail, "clean_up": clean_up, "allow_incomplete": allow, "wait": wait,
                            "shape": SHAPES[s], "shuffle": [False, True, 3][idx % 3], "idx": idx}
                     idx += 1
+    # a long-lived Crop object (a notebook that monitors and reaps) whose crop is re-sown with an extended sweep and grown
+    # by ANOTHER Crop object before it reaps: it must deliver everything that is now in the crop, or refuse and keep it
+    for s in range(nshapes):
+        for kind in ("raw", "runner", "harvester"):
+            for looked in ("ctor", "num_results", "str", "is_ready"):
+                for clean_up in (None, True):
+                    yield {"stale": True, "kind": kind, "looked": looked, "clean_up": clean_up, "shape": SHAPES[s], "idx": idx,
+                           "extend_by": 1 + idx % 3}
+                    idx += 1
+
+
+def run_stale(ctx, case):
+    import xyzpy
+    kind = case["kind"]
+    n, bs = case["shape"]
+    n1 = n + case["extend_by"] * bs
+    tmp = ctx.mkdtemp("c12")
+    name = "c12"
+    loc = cropkit.crop_dir(tmp, name)
+    sig = {"api": "reap", "farmer": kind, "scenario": "crop re-sown and grown by another object", "clean_up": str(case["clean_up"])}
+    pkind = "multi:s,s" if kind == "harvester" else "float"
+    var_names = ["y", "z"] if pkind.startswith("multi") else "y"
+    fn = probe.Probe(pkind, name="dprobe")
+    data_file = None
+    try:
+        with quiet():
+            def mk(**kw):
+                if kind == "raw":
+                    return xyzpy.Crop(fn=fn, name=name, parent_dir=tmp, **kw)
+                return xyzpy.Crop(farmer=farmer, name=name, parent_dir=tmp, **kw)
+            farmer = None
+            if kind != "raw":
+                runner = xyzpy.Runner(fn, var_names)
+                farmer = runner
+                if kind == "harvester":
+                    data_file = os.path.join(tmp, "hdata.h5")
+                    farmer = xyzpy.Harvester(runner, data_name=data_file)
+            sower = mk(batchsize=bs)
+            sower.sow_combos({"a": list(range(1, n + 1))}, verbosity=0)
+            sower.grow_missing()
+            monitor = mk() if kind != "raw" else xyzpy.Crop(name=name, parent_dir=tmp)
+            if case["looked"] == "num_results":
+                monitor.num_results
+            elif case["looked"] == "str":
+                str(monitor)
+            elif case["looked"] == "is_ready":
+                monitor.is_ready_to_reap()
+            # the sow script is run again with the extended sweep (a fresh object that does not take over the old settings)
+            sower2 = mk(batchsize=bs, autoload=False)
+            sower2.sow_combos({"a": list(range(1, n1 + 1))}, verbosity=0)
+            sower2.grow_missing()
+    except Exception as e:
+        ctx.violation(case, "building the scenario raised %r" % (e,), dict(sig, step="setup", **exc_sig(e)))
+        ctx.rmtree(tmp)
+        return
+    before = cropkit.tree_snapshot(loc)
+    err, res = None, None
+    try:
+        with quiet():
+            res = monitor.reap(clean_up=case["clean_up"])
+    except Exception as e:
+        err = e
+    ctx.count("attempts")
+    ctx.count("reaps_by_an_object_older_than_the_last_sow")
+    after = cropkit.tree_snapshot(loc)
+    bad = []
+    if err is not None:
+        if after != before:
+            bad.append("reap raised %s but the crop directory was %s" % (type(err).__name__, "deleted" if after is None else "changed"))
+    else:
+        avals = list(range(1, n1 + 1))
+        d = None
+        try:
+            if kind == "raw":
+                w = {"mode": "grid", "combos": [["a", avals]], "names": None, "cases": None, "constants": {}, "kind": pkind}
+                d, _ = cropkit.compare_nest(res, w, {}, pkind)
+            else:
+                if sorted(res["a"].values.tolist()) != avals:
+                    d = "delivered coordinate a = %s, the crop holds results for %s" % (res["a"].values.tolist(), avals)
+                for a in ([] if d else avals):
+                    v = probe.make(pkind, {"a": a})
+                    exp = {"y": v[0], "z": v[1]} if pkind.startswith("multi") else {"y": v}
+                    for vn, ev in exp.items():
+                        if refmodel.deep_eq(res.sel(a=a)[vn].values.item(), ev):
+                            d = "ds.sel(a=%d)[%s] is not the function's value" % (a, vn)
+        except Exception as e:
+            d = "delivered result cannot be read as the %d results in the crop: %r" % (n1, e)
+        if d and after is None:
+            bad.append("the crop (results for a=1..%d) was deleted although the reap did not deliver all of it: %s" % (n1, d))
+        elif d:
+            bad.append("reap returned without error but not the crop's results: %s" % d)
+        if not d and kind == "harvester":
+            if farmer._full_ds is not None:
+                farmer._full_ds.close()
+            disk = xyzpy.load_ds(data_file)
+            if sorted(disk["a"].values.tolist()) != avals:
+                bad.append("the harvester's file holds a=%s after reaping a crop with results for a=1..%d" % (disk["a"].values.tolist(), n1))
+            disk.close()
+    for msg in bad[:1]:
+        ctx.violation(case, msg, dict(sig, oracle=" ".join(msg.split(" ")[:4])))
+    ctx.rmtree(tmp)
+    ctx.observe(case, key=("stale", kind, case["looked"], case["clean_up"], case["shape"], case["extend_by"]), nontrivial=True,
+                info={"raised": repr(err)[:80] if err else None, "deleted": after is None})
 
 
 class Order(object):
@@ -123,6 +227,8 @@ class SaveFailpoint(object):
 
 def run_case(ctx, case):
     import xyzpy
+    if case.get("stale"):
+        return run_stale(ctx, case)
     kind, fail = case["kind"], case["fail"]
     n, bs = case["shape"]
     tmp = ctx.mkdtemp("c12")
